@@ -403,4 +403,19 @@ example : (runScenario { maxRetryCount := 0, maxRetryInterval := 1000, handshake
 example : (runScenario { maxRetryCount := 0, maxRetryInterval := 1000, handshakeTimeout := some 300, channelTimeout := some 300 }
     [⟨.stall, [1, 2, 3]⟩, ⟨.muteCut 100, []⟩, ⟨.healthy, [4]⟩]).reqs.served = [(1, 2), (2, 2), (3, 2), (4, 2)] := by decide
 
+-- the same loop over `wss://`: a stalled TLS handshake (nothing after the ClientHello, or only the
+-- ServerHello) is a handshake time-out like a stalled upgrade — retried, then given up; a connection
+-- closed inside the TLS handshake is retried (`Tls(TcpConnect(UnexpectedEof))`); clear text where TLS
+-- was expected ends the client at once (`Tls(TcpConnect(InvalidData))` is not retryable)
+example : (fun (r : Run) => (r.sleeps, r.attempts, r.final))
+    (runScenario { maxRetryCount := 2, maxRetryInterval := 1000, handshakeTimeout := some 300, channelTimeout := some 300, transport := .wss }
+      [⟨.stall, [1]⟩, ⟨.stallTls, []⟩, ⟨.stallUpgrade, []⟩, ⟨.healthy, []⟩])
+    = ([200, 400], 3, .gaveUp .handshakeTimeout) := by decide
+example : (fun (r : Run) => (r.sleeps, r.attempts, r.final, r.reqs.served))
+    (runScenario { maxRetryCount := 0, maxRetryInterval := 1000, handshakeTimeout := some 300, channelTimeout := some 300, transport := .wss }
+      [⟨.refuse, [1]⟩, ⟨.closeAbrupt 200, []⟩, ⟨.refuse, []⟩, ⟨.plain400, []⟩, ⟨.healthy, []⟩])
+    = ([200, 200, 400], 4, .fatal (.tls (.tcpConnect .invalidData)), [(1, 1)]) := by decide
+example : (runScenario { maxRetryCount := 1, maxRetryInterval := 1000, handshakeTimeout := some 300, channelTimeout := some 300, transport := .wss }
+    [⟨.refuse, []⟩, ⟨.refuse, []⟩]).final = .gaveUp (.tls (.tcpConnect .unexpectedEof)) := by decide
+
 end Penguin.C19
